@@ -121,20 +121,25 @@ PROPS["C23"] = {
 PROPS["C15"] = {
     "title": "Indexes never change query results",
     "kani": [(_Q, r"^c15_")],
-    "e2": ["c15"],
+    "e2": ["c15", "commit"],
     "functions_encoded": ["evaluator_equality::cypher_equals", "nervusdb_storage::index::ordered_key::encode_ordered_value",
-                          "executor::index_seek_plan::execute_index_seek"],
-    "bounds": {"values": "all i64 / f64 (non-NaN) / bool pairs", "shapes": "(Int,Int) (Float,Float) (Bool,Bool) (Int,Float)"},
-    "stubs": [],
+                          "executor::index_seek_plan::execute_index_seek", "engine::WriteTxn::commit (index maintenance phase)"],
+    "bounds": {"values": "all i64 / f64 (non-NaN) / bool pairs", "shapes": "(Int,Int) (Float,Float) (Bool,Bool) (Int,Float)",
+               "index maintenance": "one property change per transaction: SET on an existing node, SET on a node created by the transaction, REMOVE; "
+                                    "primary label present/absent, index present/absent, old value present/absent; all ids symbolic"},
+    "stubs": ["index maintenance: BTree::{load, insert, delete, root} are recorders (each mutation yields a fresh symbolic root), encode_ordered_value = "
+              "4 bytes of the value id, IndexCatalog::{get, flush}, snapshot.node_label / node_property, LabelInterner::get_name, format! = symbolic ids"],
     "assumptions": ["index lookup = prefix match on enc(value) (prefix-freeness is C27)"],
-    "outside_claim": ["index maintenance at commit, back-fill, catalog, B-tree contents (C26), planner's choice of IndexSeek",
+    "outside_claim": ["back-fill of an index created after the data, label changes of indexed nodes, B-tree contents (C26), planner's choice of IndexSeek",
                       "strings (C27 covers key order; Cypher string equality is byte equality)"],
     "level_text": "Bounded model checking (Kani/CBMC) that the index lookup key agrees with Cypher equality on scalars: "
                   "cypher_equals(a,b)=true iff enc(a)=enc(b), over all 64-bit payloads; plus path-wise symbolic execution (z3) of "
                   "execute_index_seek: the seek value reaches the index lookup kind-for-kind and bit-for-bit, unsupported kinds and a "
-                  "missing/empty index answer run the fallback scan plan, a non-empty answer is emitted alone and sorted. Partial; "
+                  "missing/empty index answer run the fallback scan plan, a non-empty answer is emitted alone and sorted; and of the index "
+                  "maintenance phase of WriteTxn::commit: the old key (index id + encoded old value, node id) is deleted, the new key inserted, "
+                  "nothing is touched without a label/index, and the catalog ends up pointing at the tree's current root and is flushed. Partial; "
                   "the Int-vs-Float disagreement (1 = 1.0 but different keys) is a recorded known finding.",
-    "level_note": "Trusted: Kani/CBMC/CaDiCaL. The seek fallback rule (E2) and index maintenance are not decided here.",
+    "level_note": "Trusted: Kani/CBMC/CaDiCaL, rustc MIR dump, E2 translator and recorder models, z3.",
     "design_ref": "DESIGN.md section 3, C15",
 }
 PROPS["C21"] = {
@@ -486,7 +491,7 @@ PROPS["C14"] = {
 
 PROPS["C01"]["e2"] = ["c17", "c01"]
 PROPS["C01"]["functions_encoded"] += ["engine::scan_recovery_state"]
-PROPS["C01"]["bounds"]["recovery scan"] = ("committed sequences of <= 2 transactions (quick) / 3 (thorough) with <= 2 ops each over {graph op, "
+PROPS["C01"]["bounds"]["recovery scan"] = ("committed sequences of <= 2 transactions with <= 2 ops each (quick), plus 3 transactions with <= 1 op each (thorough; 3 x 2 = 30 000 paths does not fit) over {graph op, "
                                           "ManifestSwitch(epoch 0..3), Checkpoint(up_to 0..8, epoch 0..3)}, txids 1..8 symbolic")
 PROPS["C01"]["level_text"] = (
     "Partial (log layer and recovery bookkeeping): path-wise symbolic execution (z3) of Wal::append (an acknowledged record must be "
@@ -501,7 +506,7 @@ PROPS["C28"] = {
     "functions_encoded": ["csr::encode_meta", "vacuum::mark_csr_segment_pages", "vacuum::scan_wal_roots", "pager::Pager::write_vacuum_copy"],
     "bounds": {"segment meta": "blob page-id lists of (1,1,1,1), (1,0,0,0) (quick) and (2,2,1,2) (thorough) entries, page ids symbolic in [2, 65536); "
                "all other header fields symbolic", "image": "8192-byte page as 8-bit terms at concrete positions",
-               "WAL roots": "committed sequences of 2 transactions x 2 records (3 x 2 thorough) over {graph op, ManifestSwitch(epoch 0..3), Checkpoint(epoch 0..3)}",
+               "WAL roots": "committed sequences of 2 transactions x 2 records (plus 3 x 1 thorough) over {graph op, ManifestSwitch(epoch 0..3), Checkpoint(epoch 0..3)}",
                "vacuum copy": "reachable = {0, 1} + 0 / 2 (3 thorough) symbolic strictly increasing data pages in [2, 15]"},
     "stubs": ["vacuum copy: File/OpenOptions = in-memory page store, Meta::encode_page opaque, BTreeSet iteration = the sorted list; "
               "Cursor::write_all / to_le_bytes / slice iteration (writer) and Pager::read_page / slice indexing / try_into / from_le_bytes / "
